@@ -646,3 +646,42 @@ mod oracle {
         }
     }
 }
+
+/// C13 — R-hat derived from per-chain trackers equals sqrt(var+/W) of the draws, for any number of parameters.
+#[test]
+fn c13_collect_rhat_matches_batch_formula_for_several_parameters() {
+    use mini_mcmc::stats::{collect_rhat, ChainTracker};
+    for n_params in [1usize, 2, 3, 5] {
+        let n_chains = 3usize;
+        let n = 50usize;
+        let val = |c: usize, t: usize, p: usize| -> f64 { ((t * 7 + c * 3 + p * 5) % 11) as f64 * 0.5 + 2.0 * (c as f64) * (p as f64 + 1.0) };
+        let mut stats = vec![];
+        for c in 0..n_chains {
+            let init: Vec<f64> = (0..n_params).map(|p| val(c, 0, p)).collect();
+            let mut tr = ChainTracker::new(n_params, &init);
+            for t in 0..n {
+                let x: Vec<f64> = (0..n_params).map(|p| val(c, t, p)).collect();
+                tr.step(&x).unwrap();
+            }
+            stats.push(tr.stats());
+        }
+        let refs: Vec<&mini_mcmc::stats::ChainStats> = stats.iter().collect();
+        let got = collect_rhat(&refs);
+        for p in 0..n_params {
+            // classical (unsplit) R-hat: W = mean unbiased variance, B/n = var of chain means (divisor M-1)
+            let means: Vec<f64> = (0..n_chains).map(|c| (0..n).map(|t| val(c, t, p)).sum::<f64>() / n as f64).collect();
+            let grand = means.iter().sum::<f64>() / n_chains as f64;
+            let w = (0..n_chains)
+                .map(|c| (0..n).map(|t| (val(c, t, p) - means[c]).powi(2)).sum::<f64>() / (n as f64 - 1.0))
+                .sum::<f64>()
+                / n_chains as f64;
+            let b_over_n = means.iter().map(|m| (m - grand).powi(2)).sum::<f64>() / (n_chains as f64 - 1.0);
+            let want = (((n as f64 - 1.0) / n as f64 * w + b_over_n) / w).sqrt();
+            assert!(
+                (got[p] as f64 - want).abs() <= 2e-3 * want,
+                "n_params {n_params}, parameter {p}: collect_rhat {} but sqrt(var+/W) = {want}",
+                got[p]
+            );
+        }
+    }
+}
